@@ -33,7 +33,7 @@ if not skip_confirm:
     rc, o = sh(f'git -C /repo worktree add -q {wt} HEAD')
     try:
         rc, o = sh(f'git apply {out}/patch.diff', cwd=wt); res['confirmed']['patch_applies'] = rc == 0
-        rc, o = sh('cargo build --offline -p quinn-proto -p quinn -p quinn-udp 2>&1 | tail -3', cwd=wt); res['confirmed']['builds'] = rc == 0 and 'error' not in o
+        rc, o = sh('cargo build --offline -p quinn-proto -p quinn -p quinn-udp 2>&1 | tail -3', cwd=wt); res['confirmed']['builds'] = rc == 0 and not re.search(r'(^|\n)error(:|\[)', o)
         rc, o = sh('cargo nextest run --workspace --offline --no-fail-fast 2>&1 | tail -4', cwd=wt)
         res['confirmed']['suite_with_patch'] = o.strip().splitlines()[-1] if o.strip() else ''
         res['confirmed']['suite_passes'] = ('passed' in o and 'failed' not in o.split('Summary')[-1])
